@@ -20,14 +20,15 @@ LABEL_RULES = [
     (r"(?:ExecStart|ExecRecord)\((\d+)\)", "grant:routine.execute#{1}"),
     (r'InstReturn\((\d+),\\"(\w+)\\"\)', "out:{1}:{2}"),
     (r"TickT", "tick"),
+    (r"CancelRoot\((\d+)\)", "cancelroot:{1}"),
     (r"TimerCb\((\d+)\)", "grant:anon#{1}"),
     (r"(?:Ret|Snap|WWake|WWakeCtx|ExecWake|ExecCWake)\((\d+)\)", None),
     (r"ExitCb\((\d+),(\d+)\)", None),
 ]
 FIX_F2 = True   # X models the code after "fix: routine: a new instance waits for every earlier instance to return"
 
-SCEN = {"quick": ["rt_q1", "rt_q2", "rt_q3", "rt_q4", "rt_q5", "rt_q6", "rt_q7", "rt_q8"],
-        "thorough": ["rt_q1", "rt_q2", "rt_q3", "rt_q4", "rt_q5", "rt_q6", "rt_q7", "rt_t1", "rt_t2", "rt_t3", "rt_t4"]}
+SCEN = {"quick": ["rt_q1", "rt_q3", "rt_q4", "rt_q6", "rt_q8", "rt_q9"],
+        "thorough": ["rt_q1", "rt_q2", "rt_q3", "rt_q4", "rt_q5", "rt_q6", "rt_q7", "rt_q8", "rt_q9", "rt_q10", "rt_t5", "rt_t1", "rt_t2", "rt_t3", "rt_t4"]}
 
 
 def scen_path(n):
@@ -40,7 +41,8 @@ def mk_factory(sc):
     def mk(d, kind):
         consts = ["Prog <- ScProg", 'Variant = "%s"' % sc["variant"], "Retry = %s" % ("TRUE" if sc["retry"] else "FALSE"),
                   "MaxG = %d" % sc.get("maxg", 4), "MaxTicks = %d" % sc.get("ticks", 0),
-                  "FixF2 = %s" % ("TRUE" if FIX_F2 else "FALSE"), "FixF14 = TRUE", "Eager = TRUE"]
+                  "FixF2 = %s" % ("TRUE" if FIX_F2 else "FALSE"), "FixF14 = TRUE", "Eager = TRUE",
+                  "RootCancel = %s" % ("TRUE" if sc.get("rootcancel") else "FALSE")]
         cfg = ["INIT Init", "NEXT Next", "CHECK_DEADLOCK FALSE", "CONSTRAINT Bounded", "CONSTANTS"] + [" " + c for c in consts]
         if kind == "mc":
             cfg += ["INVARIANTS ModelSafe QuietInv ChInv OneCurrentCtx ActiveAgree"]
@@ -72,7 +74,7 @@ def models(wd, tier, seed):
 FAM = dict(driver="routine", specdirs=["routine", "lib"], monitor="RoutinePTrace", property_of=PROPERTY_OF, models=models,
            n_random={"quick": 2000, "thorough": 150000},
            modes={"quick": [("seq", "seq", 1200), ("burst", "burst", 1500, 4)], "thorough": [("seq", "seq", 100000), ("burst", "burst", 200000, 4)]},
-           advisory=lambda wd, binp, seed, tier: x_conformance(wd, binp, seed, SCEN["quick"], nrand=40 if tier == "quick" else 1500),
+           advisory=lambda wd, binp, seed, tier: x_conformance(wd, binp, seed, SCEN["quick"] if tier == "quick" else SCEN["quick"] + ["rt_q2", "rt_q5", "rt_q7", "rt_q10"], nrand=40 if tier == "quick" else 1500),
            x_specs=["routine/Routine.tla"], p_monitor="routine/RoutineP.tla",
            assumptions=["RoutineP encodes the statements (DESIGN §3 C04/C05/C14 interpretation); exits overtaken by a superseding call before "
                         "they were recorded are not exit statuses; instances entering with a cancelled context are not judged by C14"])
@@ -105,7 +107,8 @@ def x_conformance(wd, binp, seed, names, nrand=100):
         d = vlib.spec_scratch(wd, "x-" + name, ["routine", "lib"])
         prog = [[dict(op=o["op"], c=o.get("c", 0), r=bool(o.get("r", False)), f=o.get("f", 0), s=o.get("s", 0), rin=bool(o.get("rin", False))) for o in cl] for cl in sc["clients"]]
         consts = ["Prog <- ScProg", 'Variant = "%s"' % sc["variant"], "Retry = %s" % ("TRUE" if sc["retry"] else "FALSE"),
-                  "MaxG = 12", "MaxTicks = 99", "FixF2 = %s" % ("TRUE" if FIX_F2 else "FALSE"), "FixF14 = TRUE", "Eager = FALSE"]
+                  "MaxG = 12", "MaxTicks = 99", "FixF2 = %s" % ("TRUE" if FIX_F2 else "FALSE"), "FixF14 = TRUE", "Eager = FALSE",
+                  "RootCancel = %s" % ("TRUE" if sc.get("rootcancel") else "FALSE")]
         vlib.write_mc(d, "MCX", "RoutineXTrace", ["ScProg == " + vlib.json2tla(prog)],
                       ["INIT TInit", "NEXT TNext", "CHECK_DEADLOCK FALSE", "CONSTANTS"] + [" " + c for c in consts])
         vf = os.path.join(d, "verdict.json")
